@@ -152,15 +152,19 @@ def explore(module, cls, maxsizes=(1, 2), purges=(False, True), universe=3, dept
             archs = ['none', 'dict']
             if only is None or 'C07' in only or set(only) & set(REJECT_CLAUSES):
                 archs.append('rejecting')       # a dict archive that cannot encode the value of key 0
+            if only is not None and ('C18' in only or 'C11' in only):
+                archs.append('ignore')          # decorated with ignore='verbose' (a bare string naming a parameter), dict archive
             for arch in archs:
                 if purge and arch == 'none':
                     continue
                 res['configs'] += 1
                 init = {'module': module, 'cls': cls, 'maxsize': M, 'purge': purge, 'universe': universe,
-                        'arch0': 'dict' if arch == 'rejecting' else arch,
+                        'arch0': 'dict' if arch in ('rejecting', 'ignore') else arch,
                         'mem': {}, 'A': None if arch == 'none' else {}, 'S': None, 'stats': [0, 0, 0]}
                 if arch == 'rejecting':
                     init['rejects'] = [0]
+                if arch == 'ignore':
+                    init['ignore'] = 'verbose'
                 if pol in ('lru', 'mru'):
                     init['queue'] = []
                 if pol in ('lru', 'lfu'):
